@@ -13,6 +13,9 @@ ENGINE = "e1-bounded-enumeration"
 BOUNDS = {"quick": [1, 2, 3, 4], "thorough": [1, 2, 3, 4, 5]}
 LONG = {"quick": [6, 10, 11, 12, 21], "thorough": [6, 7, 8, 9, 10, 11, 12, 13, 16, 20, 21, 22, 31, 33]}
 LONG_OPS = ["U", "O", "X", "UO", "OU", "XU", "UOX"]
+# the library's own (plain) evaluate_931..935 methods mixed with harness keys answered by coroutine methods and vice versa
+BUILTIN_EXPRS = ["[901] U [931]", "[901] U ([931] O [932])", "[931] X [901] U [934]", "([902] O [933]) U [999] X [935]", "[932] U [901] O [934]", "[999] X [933] X [901]"]
+BUILTIN_TEXTS = ["2022-12-31T23:00:00+00:00", "2022-06-01T04:00:00+00:00", "2022-01-01T00:00:00+00:00", "2022-01-01T00:00:00+01:30", "kein Datum"]
 ORDER_EXPRS = ["[950]O([951]U[952])", "([952] X [950]) U [951]", "[951] U [952] O [950]"]
 BOOL = {"and_composition": lambda a, b: a and b, "or_composition": lambda a, b: a or b, "xor_composition": lambda a, b: a != b}
 
@@ -25,8 +28,10 @@ def describe(tier):
                 "(reference parser R2; expressions with 3-4 leaves also in mixed letter/symbol notation); an error message is "
                 "present iff the result is unfulfilled; through evaluate_format_constraint_tree (messages supplied) and through "
                 "format_constraint_evaluation with a harness FcEvaluator whose evaluate methods return no message (default-message path), "
-                "sync and async evaluation methods, and (3 keys, all 8 assignments, 3 expressions) under ALL completion orders of "
+                "all-sync, all-async and MIXED sync/async evaluation methods (an async key written before a plain one and vice versa), and (3 keys, all 8 assignments, 3 expressions) under ALL completion orders of "
                 "suspending evaluate_<key> coroutines on the virtual event loop; None and '' count as fulfilled; "
+                f"{len(BUILTIN_EXPRS)} expressions that mix the library's own plain evaluate_931..935 with harness keys (coroutine and plain methods) on {len(BUILTIN_TEXTS)} texts: "
+                "value == documented combination of the verdicts each shipped constraint gives alone; "
                 f"flat chains with {LONG[tier]} key occurrences x operator patterns {LONG_OPS} (2 or 3 keys cycling under all assignments; all keys distinct under "
                 "all-true / all-false with <= 1 deviation: deviation-bounded, not all 2^L); expressions with <= 3 leaves also through the library's DictBased / "
                 "ContentEvaluationResultBased format constraint evaluators and user-style method based evaluators. Non-trivial = (expression, assignment) pairs with >= 2 "
@@ -50,6 +55,8 @@ def plan(tier, seed):
     for L in LONG[tier]:
         for ops in range(len(LONG_OPS)):
             items.append({"fam": "long", "L": L, "ops": ops, "seed": seed})
+    for e in range(len(BUILTIN_EXPRS)):
+        items.append({"fam": "builtin", "expr": e})
     for n in BOUNDS[tier]:
         parts = {1: 1, 2: 1, 3: 4, 4: 32, 5: 512}[n]
         for p in range(parts):
@@ -126,9 +133,10 @@ def check_expr(expr, only=None, vals_list=None):
         else:
             obs.append(("tree", r[1].format_constraint_fulfilled, r[1].error_message))
         # (b) the async entry point; harness evaluators return NO message (default message path); once all-sync, once async
-        for mode in ("sync", "async"):
+        for mode in ("sync", "async", "mixed"):
             fc = {k: (v, None) for k, v in val.items()}
-            env = I.Env(fc=fc, yielder=None if mode == "sync" else _no_yield)
+            env = I.Env(fc=fc, yielder=None if mode == "sync" else _no_yield,
+                        sync={("fc", k) for k in fc if I.is_sync_key("fc", k)} if mode == "mixed" else ())
             rr = I.try_call(lambda: I.run(I.format_constraint_evaluation(expr), env))
             n += 1
             if rr[0] == "exc":
@@ -145,6 +153,47 @@ def check_expr(expr, only=None, vals_list=None):
             elif msg is not None and (not isinstance(msg, str) or msg == ""):
                 out.append({"kind": "message-empty", "case": case, "expected": "non-empty str", "observed": repr(msg), "msg": expr})
     return out, n
+
+
+def check_builtin(expr, text, val):
+    """expression over shipped constraints (931-935, UBn) and harness keys: the shipped ones are first evaluated ALONE on the same
+    text (C20 judges those verdicts); the expression's value must be the documented combination"""
+    from mc.ref import condparse as R2
+    from mc.ref import subst as R6
+
+    I = X.init()
+    out = []
+    plain = R6.substitute(expr, {}, False, True)
+    ref = R2.parse(plain)
+    keys = sorted({lf[1] for lf in R2.leaves(ref)})
+    case = {"expr": expr, "text": text, "fc": val, "builtin": True}
+
+    def run(e):
+        async def go():
+            I.text_to_be_evaluated_by_format_constraint.set(text)
+            return await I.format_constraint_evaluation(e)
+
+        fc = {k: (v, None if v else f"msg {k}") for k, v in val.items()}
+        return I.try_call(lambda: I.run(go(), I.Env(fc=fc, yielder=_no_yield, sync={("fc", k) for k in fc if I.is_sync_key("fc", k)})))
+
+    full = dict(val)
+    for k in keys:
+        if k not in full:
+            r = run(f"[{k}]")
+            if r[0] == "exc":
+                return [{"kind": "raised", "case": case, "expected": "a verdict for the shipped constraint alone", "observed": r[1], "msg": k}]
+            full[k] = r[1].format_constraints_fulfilled
+    exp = R2.to_bool(ref, full)
+    r = run(expr)
+    if r[0] == "exc":
+        out.append({"kind": "raised", "case": case, "expected": exp, "observed": r[1], "msg": expr})
+    elif r[1].format_constraints_fulfilled is not exp:
+        out.append({"kind": "boolean-value/shipped+custom", "case": case, "expected": exp, "observed": r[1].format_constraints_fulfilled,
+                    "msg": f"{expr} on {text!r}: single verdicts {full}"})
+    elif (r[1].error_message is not None) != (not exp):
+        out.append({"kind": "message-iff-unfulfilled", "case": case, "expected": "message" if not exp else "no message",
+                    "observed": r[1].error_message, "msg": f"{expr} on {text!r}"})
+    return out
 
 
 def check_expr_mode(expr, mode, only=None):
@@ -197,14 +246,29 @@ def run_item(item):
         return r
     if item["fam"] == "orders":
         return _run_orders(item, r)
+    if item["fam"] == "builtin":
+        expr = BUILTIN_EXPRS[item["expr"]]
+        custom = [k for k in ("901", "902", "999") if f"[{k}]" in expr]
+        for text in BUILTIN_TEXTS:
+            for vals in itertools.product((True, False), repeat=len(custom)):
+                vs = check_builtin(expr, text, dict(zip(custom, vals)))
+                r.evaluations += 1
+                r.states += 1
+                r.transitions += 1
+                r.traces += 1
+                r.nontrivial += 1
+                for v in vs:
+                    r.violation(v["kind"], v["case"], v["expected"], v["observed"], v["msg"])
+        r.sample({"expr": expr, "texts": len(BUILTIN_TEXTS)})
+        return r
     if item["fam"] == "long":
         for expr, vals in long_cases(item["L"], item["ops"], item["seed"]):
             vs, n = check_expr(expr, vals_list=vals)
             r.evaluations += n
-            r.states += n // 3
+            r.states += n // 4
             r.transitions += n
             r.traces += 1
-            r.nontrivial += n // 3
+            r.nontrivial += n // 4
             r.stat("long_chain_executions", n)
             for v in vs:
                 r.violation(v["kind"], v["case"], v["expected"], v["observed"], v["msg"])
@@ -250,11 +314,11 @@ def run_item(item):
                     vs += vs2
                     n += n2
         r.evaluations += n
-        r.states += n // 3
+        r.states += n // 4
         r.transitions += n
         r.traces += 1
         if item["n"] >= 3:
-            r.nontrivial += n // 3
+            r.nontrivial += n // 4
         for v in vs:
             r.violation(v["kind"], v["case"], v["expected"], v["observed"], v["msg"])
         r.sample({"expr": expr, "executions": n})
@@ -320,6 +384,8 @@ def replay(case):
             return check_expr_mode(case["expr"], case["mode"], case.get("fc"))[0]
         finally:
             M.restore()
+    if case.get("builtin"):
+        return check_builtin(case["expr"], case["text"], case["fc"])
     if case.get("empty"):
         return run_item({"fam": "empty", "seed": 0}).violations
     return check_expr(case["expr"], case.get("fc"))[0]
